@@ -107,3 +107,26 @@
 ; substring-after: the substring that follows the first occurrence, or the empty string
 (define-fun xp_substring_after ((a String) (b String)) String
   (ite (str.contains a b) (str.substr a (+ (str.indexof a b 0) (str.len b)) (str.len a)) ""))
+; The data tree as seen through the Entry interface (C02/C05): results of Navigate, GetValue, FollowLeafRef, GetSdcpbPath
+(declare-fun tree_nav (Iface Int) Iface)
+(declare-fun tree_nav_err (Iface Int) Iface)
+(declare-fun tree_val (Iface) Iface)
+(declare-fun tree_val_err (Iface) Iface)
+(declare-fun tree_lref (Iface) Iface)
+(declare-fun tree_lref_err (Iface) Iface)
+(declare-fun tree_path (Iface) Int)
+; XML 1.0 (fifth edition) productions [4] NameStartChar and [4a] NameChar without ':' (Namespaces in XML: NCName),
+; used by XPath 1.0 NameTest / QName; and XPath 1.0 [39] ExprWhitespace (S).
+(define-fun xml_ncnamestart ((c Int)) Bool
+  (or (and (<= 65 c) (<= c 90)) (= c 95) (and (<= 97 c) (<= c 122))
+      (and (<= 192 c) (<= c 214)) (and (<= 216 c) (<= c 246)) (and (<= 248 c) (<= c 767))
+      (and (<= 880 c) (<= c 893)) (and (<= 895 c) (<= c 8191)) (and (<= 8204 c) (<= c 8205))
+      (and (<= 8304 c) (<= c 8591)) (and (<= 11264 c) (<= c 12271)) (and (<= 12289 c) (<= c 55295))
+      (and (<= 63744 c) (<= c 64975)) (and (<= 65008 c) (<= c 65533)) (and (<= 65536 c) (<= c 983039))))
+(define-fun xml_ncnamechar ((c Int)) Bool
+  (or (xml_ncnamestart c) (= c 45) (= c 46) (and (<= 48 c) (<= c 57)) (= c 183)
+      (and (<= 768 c) (<= c 879)) (and (<= 8255 c) (<= c 8256))))
+(define-fun xp_whitespace ((c Int)) Bool (or (= c 32) (= c 9) (= c 13) (= c 10)))
+; RFC 6020 section 12: identifier = (ALPHA / "_") *(ALPHA / DIGIT / "_" / "-" / ".")
+(define-fun rfc_idstart ((c Int)) Bool (or (and (<= 65 c) (<= c 90)) (= c 95) (and (<= 97 c) (<= c 122))))
+(define-fun rfc_idchar ((c Int)) Bool (or (rfc_idstart c) (= c 45) (= c 46) (and (<= 48 c) (<= c 57))))
